@@ -113,10 +113,22 @@ inductive DanglingExp : Bytes → Prop
 /-- what the exponent stage of the current `parseNumber` accepts in front of `rest` -/
 def ExpLoose (e rest : Bytes) : Prop := ExpOpt e ∨ (DanglingExp e ∧ rest ≠ [])
 
-/-- `[ minus ] int [ frac ]` followed by an `ExpLoose` exponent -/
-inductive NumberLoose : Bytes → Bytes → Prop
-  | mk (m i f e rest : Bytes) : MinusOpt m → IntPart i → FracOpt f → ExpLoose e rest →
-      NumberLoose (m ++ (i ++ (f ++ e))) rest
+/-- `[ minus ] int [ frac ]` followed by an exponent part `e` with `E e rest` (`rest` = what follows) -/
+inductive NumberG (E : Bytes → Bytes → Prop) : Bytes → Bytes → Prop
+  | mk (m i f e rest : Bytes) : MinusOpt m → IntPart i → FracOpt f → E e rest →
+      NumberG E (m ++ (i ++ (f ++ e))) rest
+
+/-- the language of the current `parseNumber` in front of `rest` -/
+abbrev NumberLoose := NumberG ExpLoose
+
+/-- what the stages before the exponent need to know about an exponent stage `expF` accepting `E` -/
+structure ExpStage (expF : Bytes → Bytes → Nat → Option Nat) (E : Bytes → Bytes → Prop) : Prop where
+  sound : ∀ {input pre s : Bytes} {k : Nat}, input = pre ++ s → expF input s pre.length = some k →
+    ∃ e rest, s = e ++ rest ∧ k = pre.length + e.length ∧ DelimOK rest ∧ E e rest
+  complete : ∀ {input pre e rest : Bytes}, input = pre ++ (e ++ rest) → E e rest → DelimOK rest →
+    expF input (e ++ rest) pre.length = some (pre.length + e.length)
+  head : ∀ {e rest : Bytes}, E e rest → DelimOK rest →
+    ∀ c ∈ (e ++ rest).head?, isDigit c = false ∧ c ≠ 0x2e#8
 
 /-! ### numDelim -/
 
@@ -148,9 +160,9 @@ theorem numExp_sound {input pre s : Bytes} (h : input = pre ++ s) {k : Nat}
     ∃ e rest, s = e ++ rest ∧ k = pre.length + e.length ∧ DelimOK rest ∧ ExpLoose e rest := by
   have noexp : numDelim input pre.length = some k →
       ∃ e rest, s = e ++ rest ∧ k = pre.length + e.length ∧ DelimOK rest ∧ ExpLoose e rest := by
-    intro hd
-    obtain ⟨rfl, hd⟩ := (numDelim_iff h k).1 hd
-    exact ⟨[], s, rfl, rfl, hd, Or.inl ExpOpt.none⟩
+    intro hnd
+    obtain ⟨hkk, hdl⟩ := (numDelim_iff h k).1 hnd
+    exact ⟨[], s, rfl, by simpa using hkk, hdl, Or.inl ExpOpt.none⟩
   rcases s with _ | ⟨c0, _ | ⟨c1, t⟩⟩
   · exact noexp (by simpa [numExp] using hk)
   · exact noexp (by simpa [numExp] using hk)
@@ -169,8 +181,8 @@ theorem numExp_sound {input pre s : Bytes} (h : input = pre ++ s) {k : Nat}
             rw [h]; simp [ht]
           have hk' : numDelim input (pre.length + (c0 :: c1 :: ds).length) = some k := by
             rw [← hk, hlen]; simp only [List.length_cons]; congr 1; omega
-          obtain ⟨rfl, hd⟩ := (numDelim_iff' hin k).1 hk'
-          refine ⟨c0 :: c1 :: ds, r, by simp [ht], rfl, hd, ?_⟩
+          obtain ⟨hkk, hdl⟩ := (numDelim_iff' hin k).1 hk'
+          refine ⟨c0 :: c1 :: ds, r, by simp [ht], hkk, hdl, ?_⟩
           have hsg : SignOpt [c1] := by
             rcases hs with rfl | rfl
             · exact SignOpt.plus
@@ -188,8 +200,8 @@ theorem numExp_sound {input pre s : Bytes} (h : input = pre ++ s) {k : Nat}
           rw [h]; simp [ht]
         have hk' : numDelim input (pre.length + (c0 :: ds).length) = some k := by
           rw [← hk, hlen]; simp only [List.length_cons]; congr 1; omega
-        obtain ⟨rfl, hd⟩ := (numDelim_iff' hin k).1 hk'
-        refine ⟨c0 :: ds, r, by simp [ht], rfl, hd, ?_⟩
+        obtain ⟨hkk, hdl⟩ := (numDelim_iff' hin k).1 hk'
+        refine ⟨c0 :: ds, r, by simp [ht], hkk, hdl, ?_⟩
         cases ds with
         | nil =>
           refine Or.inr ⟨DanglingExp.mk c0 [] he SignOpt.none, ?_⟩
@@ -201,42 +213,36 @@ theorem numExp_sound {input pre s : Bytes} (h : input = pre ++ s) {k : Nat}
 theorem numExp_complete {input pre e rest : Bytes} (h : input = pre ++ (e ++ rest))
     (he : ExpLoose e rest) (hd : DelimOK rest) :
     numExp input (e ++ rest) pre.length = some (pre.length + e.length) := by
-  have fin : numDelim input (pre.length + e.length) = some (pre.length + e.length) :=
-    (numDelim_iff' h _).2 ⟨rfl, hd⟩
+  have key : ∀ a b, a = pre.length + e.length → b = a → numDelim input a = some b := by
+    intro a b ha hb; subst hb; subst ha
+    exact (numDelim_iff' h _).2 ⟨rfl, hd⟩
   rcases he with he | ⟨he, hne⟩
   · cases he with
     | none =>
       -- no exponent: the rest starts with a delimiter, which is not `e`/`E`
-      simp only [List.nil_append, List.length_nil, Nat.add_zero] at fin ⊢
       rcases rest with _ | ⟨c0, _ | ⟨c1, t⟩⟩
-      · simpa [numExp] using fin
-      · simpa [numExp] using fin
+      · simp only [List.nil_append, numExp]; exact key _ _ (by simp) (by simp)
+      · simp only [List.nil_append, numExp]; exact key _ _ (by simp) (by simp)
       · have := delim_ne_e c0 (DelimOK.cons.1 hd)
-        simp only [numExp]
+        simp only [List.nil_append, numExp]
         rw [if_neg (by simp [this.1, this.2])]
-        exact fin
+        exact key _ _ (by simp) (by simp)
     | some e0 sg d ds he0 hsg hdg hds =>
       have hdl : digitsLen ((d :: ds) ++ rest) = (d :: ds).length :=
         digitsLen_append (AllDigits.cons.2 ⟨hdg, hds⟩) hd.noDigitHead
+      have hdl' : digitsLen (d :: (ds ++ rest)) = ds.length + 1 := by simpa using hdl
       cases hsg with
       | none =>
-        simp only [List.nil_append, List.cons_append, numExp]
-        rw [if_pos he0, if_neg (by
-          have := digit_ne_plus d hdg; have := digit_ne_minus d hdg; simp [*])]
-        have : digitsLen (d :: (ds ++ rest)) = (d :: ds).length := by simpa using hdl
-        rw [this, ← fin]; simp only [List.length_cons, List.nil_append]; congr 1; omega
+        have h1 := digit_ne_plus d hdg
+        have h2 := digit_ne_minus d hdg
+        simp only [List.nil_append, List.cons_append, numExp, if_pos he0, h1, h2, or_self, if_false, hdl']
+        exact key _ _ (by simp; omega) (by simp; omega)
       | plus =>
-        simp only [List.cons_append, List.nil_append, numExp]
-        rw [if_pos he0, if_pos (Or.inl rfl)]
-        have : digitsLen (d :: (ds ++ rest)) = (d :: ds).length := by simpa using hdl
-        simp only
-        rw [this, ← fin]; simp only [List.length_cons, List.length_append, List.length_nil]; congr 1; omega
+        simp only [List.cons_append, List.nil_append, numExp, if_pos he0, true_or, if_true, hdl']
+        exact key _ _ (by simp; omega) (by simp; omega)
       | minus =>
-        simp only [List.cons_append, List.nil_append, numExp]
-        rw [if_pos he0, if_pos (Or.inr rfl)]
-        have : digitsLen (d :: (ds ++ rest)) = (d :: ds).length := by simpa using hdl
-        simp only
-        rw [this, ← fin]; simp only [List.length_cons, List.length_append, List.length_nil]; congr 1; omega
+        simp only [List.cons_append, List.nil_append, numExp, if_pos he0, or_true, if_true, hdl']
+        exact key _ _ (by simp; omega) (by simp; omega)
   · obtain ⟨c, t, rfl⟩ := List.exists_cons_of_ne_nil hne
     have hc := DelimOK.cons.1 hd
     have hdl : digitsLen (c :: t) = 0 := by
@@ -245,21 +251,318 @@ theorem numExp_complete {input pre e rest : Bytes} (h : input = pre ++ (e ++ res
     | mk e0 sg he0 hsg =>
       cases hsg with
       | none =>
-        simp only [List.cons_append, List.nil_append, numExp]
-        rw [if_pos he0, if_neg (by
-          have := delim_ne_minus c hc
-          have : c ≠ 0x2b#8 := by intro h; subst h; simp [isNotDelim] at hc
-          simp [*])]
-        rw [hdl, ← fin]; simp
+        have h1 := delim_ne_minus c hc
+        have h2 : c ≠ 0x2b#8 := by intro h; subst h; simp [isNotDelim] at hc
+        simp only [List.cons_append, List.nil_append, numExp, if_pos he0, h1, h2, or_self, if_false, hdl]
+        exact key _ _ (by simp) (by simp)
       | plus =>
-        simp only [List.cons_append, List.nil_append, numExp]
-        rw [if_pos he0, if_pos (Or.inl rfl)]
-        simp only
-        rw [hdl, ← fin]; simp
+        simp only [List.cons_append, List.nil_append, numExp, if_pos he0, true_or, if_true, hdl]
+        exact key _ _ (by simp) (by simp)
       | minus =>
-        simp only [List.cons_append, List.nil_append, numExp]
-        rw [if_pos he0, if_pos (Or.inr rfl)]
-        simp only
-        rw [hdl, ← fin]; simp
+        simp only [List.cons_append, List.nil_append, numExp, if_pos he0, or_true, if_true, hdl]
+        exact key _ _ (by simp) (by simp)
+
+/-! ### the repaired exponent stage -/
+
+theorem numExpFixed_sound {input pre s : Bytes} (h : input = pre ++ s) {k : Nat}
+    (hk : numExpFixed input s pre.length = some k) :
+    ∃ e rest, s = e ++ rest ∧ k = pre.length + e.length ∧ DelimOK rest ∧ ExpOpt e := by
+  have noexp : numDelim input pre.length = some k →
+      ∃ e rest, s = e ++ rest ∧ k = pre.length + e.length ∧ DelimOK rest ∧ ExpOpt e := by
+    intro hnd
+    obtain ⟨hkk, hdl⟩ := (numDelim_iff h k).1 hnd
+    exact ⟨[], s, rfl, by simpa using hkk, hdl, ExpOpt.none⟩
+  rcases s with _ | ⟨c0, _ | ⟨c1, t⟩⟩
+  · exact noexp (by simpa [numExpFixed] using hk)
+  · exact noexp (by simpa [numExpFixed] using hk)
+  · simp only [numExpFixed] at hk
+    split at hk
+    next he =>
+      split at hk
+      next hs =>
+        cases t with
+        | nil => simp at hk
+        | cons d t' =>
+          simp only at hk
+          split at hk
+          next hdg =>
+            obtain ⟨ds, r, ht, hds, hr, hlen, -, -⟩ := digit_split t'
+            have hlen' : digitsLen (d :: t') = ds.length + 1 := by
+              unfold digitsLen at hlen ⊢
+              rw [List.takeWhile_cons_of_pos hdg]; simp [hlen]
+            have hin : input = pre ++ ((c0 :: c1 :: d :: ds) ++ r) := by rw [h]; simp [ht]
+            have hk' : numDelim input (pre.length + (c0 :: c1 :: d :: ds).length) = some k := by
+              rw [← hk, hlen']; simp only [List.length_cons]; congr 1; omega
+            obtain ⟨hkk, hdl⟩ := (numDelim_iff' hin k).1 hk'
+            have hsg : SignOpt [c1] := by
+              rcases hs with rfl | rfl
+              · exact SignOpt.plus
+              · exact SignOpt.minus
+            exact ⟨c0 :: c1 :: d :: ds, r, by simp [ht], hkk, hdl, ExpOpt.some c0 [c1] d ds he hsg hdg hds⟩
+          next => simp at hk
+      next hs =>
+        split at hk
+        next hdg =>
+          obtain ⟨ds, r, ht, hds, hr, hlen, -, -⟩ := digit_split t
+          have hlen' : digitsLen (c1 :: t) = ds.length + 1 := by
+            unfold digitsLen at hlen ⊢
+            rw [List.takeWhile_cons_of_pos hdg]; simp [hlen]
+          have hin : input = pre ++ ((c0 :: c1 :: ds) ++ r) := by rw [h]; simp [ht]
+          have hk' : numDelim input (pre.length + (c0 :: c1 :: ds).length) = some k := by
+            rw [← hk, hlen']; simp only [List.length_cons]; congr 1; omega
+          obtain ⟨hkk, hdl⟩ := (numDelim_iff' hin k).1 hk'
+          exact ⟨c0 :: c1 :: ds, r, by simp [ht], hkk, hdl, ExpOpt.some c0 [] c1 ds he SignOpt.none hdg hds⟩
+        next => simp at hk
+    next he => exact noexp hk
+
+theorem numExpFixed_complete {input pre e rest : Bytes} (h : input = pre ++ (e ++ rest))
+    (he : ExpOpt e) (hd : DelimOK rest) :
+    numExpFixed input (e ++ rest) pre.length = some (pre.length + e.length) := by
+  have key : ∀ a b, a = pre.length + e.length → b = a → numDelim input a = some b := by
+    intro a b ha hb; subst hb; subst ha
+    exact (numDelim_iff' h _).2 ⟨rfl, hd⟩
+  cases he with
+  | none =>
+    rcases rest with _ | ⟨c0, _ | ⟨c1, t⟩⟩
+    · simp only [List.nil_append, numExpFixed]; exact key _ _ (by simp) (by simp)
+    · simp only [List.nil_append, numExpFixed]; exact key _ _ (by simp) (by simp)
+    · have := delim_ne_e c0 (DelimOK.cons.1 hd)
+      simp only [List.nil_append, numExpFixed]
+      rw [if_neg (by simp [this.1, this.2])]
+      exact key _ _ (by simp) (by simp)
+  | some e0 sg d ds he0 hsg hdg hds =>
+    have hdl : digitsLen ((d :: ds) ++ rest) = (d :: ds).length :=
+      digitsLen_append (AllDigits.cons.2 ⟨hdg, hds⟩) hd.noDigitHead
+    have hdl' : digitsLen (d :: (ds ++ rest)) = ds.length + 1 := by simpa using hdl
+    cases hsg with
+    | none =>
+      have h1 := digit_ne_plus d hdg
+      have h2 := digit_ne_minus d hdg
+      simp only [List.nil_append, List.cons_append, numExpFixed, if_pos he0, h1, h2, or_self, if_false, hdl',
+        hdg, if_true]
+      exact key _ _ (by simp <;> omega) (by simp <;> omega)
+    | plus =>
+      simp only [List.cons_append, List.nil_append, numExpFixed, if_pos he0, true_or, if_true, hdl', hdg]
+      exact key _ _ (by simp <;> omega) (by simp <;> omega)
+    | minus =>
+      simp only [List.cons_append, List.nil_append, numExpFixed, if_pos he0, or_true, if_true, hdl', hdg]
+      exact key _ _ (by simp <;> omega) (by simp <;> omega)
+
+/-! ### what follows the fraction -/
+
+/-- what follows the fraction does not start with a digit or a decimal point -/
+theorem expLoose_head {e rest : Bytes} (he : ExpLoose e rest) (hd : DelimOK rest) :
+    ∀ c ∈ (e ++ rest).head?, isDigit c = false ∧ c ≠ 0x2e#8 := by
+  intro c hc
+  have hE : ∀ x : Byte, (x = 0x65#8 ∨ x = 0x45#8) → isDigit x = false ∧ x ≠ 0x2e#8 := by decide
+  rcases he with he | ⟨he, _⟩
+  · cases he with
+    | none =>
+      cases rest with
+      | nil => simp at hc
+      | cons r t =>
+        simp at hc; subst hc
+        exact ⟨delim_not_digit _ (DelimOK.cons.1 hd), delim_ne_dot _ (DelimOK.cons.1 hd)⟩
+    | some e0 sg d ds he0 _ _ _ => simp at hc; subst hc; exact hE _ he0
+  · cases he with
+    | mk e0 sg he0 _ => simp at hc; subst hc; exact hE _ he0
+
+/-- the exponent stage of the current code accepts exactly `ExpLoose` -/
+theorem expStage_current : ExpStage numExp ExpLoose :=
+  ⟨fun h hk => numExp_sound h hk, fun h he hd => numExp_complete h he hd, fun he hd => expLoose_head he hd⟩
+
+/-- the repaired exponent stage accepts exactly the RFC `[ exp ]` -/
+theorem expStage_fixed : ExpStage numExpFixed (fun e _ => ExpOpt e) :=
+  ⟨fun h hk => numExpFixed_sound h hk, fun h he hd => numExpFixed_complete h he hd,
+   fun he hd => expLoose_head (Or.inl he) hd⟩
+
+/-! ### fraction stage -/
+
+section Generic
+variable {expF : Bytes → Bytes → Nat → Option Nat} {E : Bytes → Bytes → Prop} (X : ExpStage expF E)
+include X
+
+theorem numFrac_sound {input pre s : Bytes} (h : input = pre ++ s) {k : Nat}
+    (hk : numFracG expF input s pre.length = some k) :
+    ∃ f e rest, s = f ++ (e ++ rest) ∧ k = pre.length + f.length + e.length ∧ DelimOK rest ∧
+      FracOpt f ∧ E e rest := by
+  have nofrac : expF input s pre.length = some k →
+      ∃ f e rest, s = f ++ (e ++ rest) ∧ k = pre.length + f.length + e.length ∧ DelimOK rest ∧
+        FracOpt f ∧ E e rest := by
+    intro hx
+    obtain ⟨e, rest, hs, hkk, hd, he⟩ := X.sound h hx
+    exact ⟨[], e, rest, by simpa using hs, by simpa using hkk, hd, FracOpt.none, he⟩
+  rcases s with _ | ⟨c0, _ | ⟨c1, t⟩⟩
+  · exact nofrac (by simpa [numFracG] using hk)
+  · exact nofrac (by simpa [numFracG] using hk)
+  · simp only [numFracG] at hk
+    split at hk
+    next hc =>
+      obtain ⟨rfl, hc1⟩ := hc
+      obtain ⟨ds, r, ht, hds, hr, hlen, hdrop, -⟩ := digit_split t
+      have hin : input = (pre ++ (0x2e#8 :: c1 :: ds)) ++ r := by rw [h]; simp [ht]
+      have hcount : pre.length + 2 + digitsLen t = (pre ++ (0x2e#8 :: c1 :: ds)).length := by
+        rw [hlen]; simp <;> omega
+      rw [hdrop, hcount] at hk
+      obtain ⟨e, rest, hs, hkk, hd, he⟩ := X.sound hin hk
+      refine ⟨0x2e#8 :: c1 :: ds, e, rest, by simp [ht, hs], ?_, hd, FracOpt.some c1 ds hc1 hds, he⟩
+      rw [hkk]; simp
+    next => exact nofrac hk
+
+theorem numFrac_complete {input pre f e rest : Bytes} (h : input = pre ++ (f ++ (e ++ rest)))
+    (hf : FracOpt f) (he : E e rest) (hd : DelimOK rest) :
+    numFracG expF input (f ++ (e ++ rest)) pre.length = some (pre.length + f.length + e.length) := by
+  have hhead := X.head he hd
+  cases hf with
+  | none =>
+    have hx : expF input (e ++ rest) pre.length = some (pre.length + e.length) :=
+      X.complete (by simpa using h) he hd
+    simp only [List.nil_append, List.length_nil, Nat.add_zero]
+    rcases hs : e ++ rest with _ | ⟨c0, _ | ⟨c1, t⟩⟩
+    · rw [hs] at hx; simpa [numFracG] using hx
+    · rw [hs] at hx; simpa [numFracG] using hx
+    · rw [hs] at hx hhead
+      have := (hhead c0 (by simp)).2
+      simp only [numFracG]
+      rw [if_neg (by simp [this])]; exact hx
+  | some d ds hdg hds =>
+    have hnd : NoDigitHead (e ++ rest) := fun c hc => (hhead c hc).1
+    have h1 : digitsLen (ds ++ (e ++ rest)) = ds.length := digitsLen_append hds hnd
+    have h2 : dropDigits (ds ++ (e ++ rest)) = e ++ rest := dropDigits_append hds hnd
+    have hin : input = (pre ++ (0x2e#8 :: d :: ds)) ++ (e ++ rest) := by rw [h]; simp
+    have hx := X.complete hin he hd
+    simp only [List.cons_append, numFracG, hdg, and_self, if_true, h1, h2]
+    have hcount : pre.length + 2 + ds.length = (pre ++ (0x2e#8 :: d :: ds)).length := by simp <;> omega
+    rw [hcount, hx]; simp <;> omega
+
+/-! ### integer stage -/
+
+/-- what follows the integer part does not start with a digit -/
+theorem afterInt_head {f e rest : Bytes} (hf : FracOpt f) (he : E e rest) (hd : DelimOK rest) :
+    NoDigitHead (f ++ (e ++ rest)) := by
+  cases hf with
+  | none => exact fun c hc => (X.head he hd c (by simpa using hc)).1
+  | some d ds _ _ => intro c hc; simp at hc; subst hc; exact dot_not_digit
+
+theorem numInt_sound {input pre s : Bytes} (h : input = pre ++ s) {k : Nat}
+    (hk : numIntG expF input s pre.length = some k) :
+    ∃ i f e rest, s = i ++ (f ++ (e ++ rest)) ∧ k = pre.length + i.length + f.length + e.length ∧
+      DelimOK rest ∧ IntPart i ∧ FracOpt f ∧ E e rest := by
+  rcases s with _ | ⟨c, t⟩
+  · simp [numIntG] at hk
+  · simp only [numIntG] at hk
+    split at hk
+    next hc =>
+      subst hc
+      have hin : input = (pre ++ [0x30#8]) ++ t := by rw [h]; simp
+      have hcount : pre.length + 1 = (pre ++ [0x30#8]).length := by simp
+      rw [hcount] at hk
+      obtain ⟨f, e, rest, hs, hkk, hd, hf, he⟩ := numFrac_sound X hin hk
+      refine ⟨[0x30#8], f, e, rest, by simp [hs], ?_, hd, IntPart.zero, hf, he⟩
+      rw [hkk]; simp
+    next hc =>
+      split at hk
+      next h19 =>
+        obtain ⟨ds, r, ht, hds, hr, hlen, hdrop, -⟩ := digit_split t
+        have hin : input = (pre ++ (c :: ds)) ++ r := by rw [h]; simp [ht]
+        have hcount : pre.length + 1 + digitsLen t = (pre ++ (c :: ds)).length := by
+          rw [hlen]; simp <;> omega
+        rw [hdrop, hcount] at hk
+        obtain ⟨f, e, rest, hs, hkk, hd, hf, he⟩ := numFrac_sound X hin hk
+        refine ⟨c :: ds, f, e, rest, by simp [ht, hs], ?_, hd, IntPart.nonzero c ds h19 hds, hf, he⟩
+        rw [hkk]; simp
+      next => simp at hk
+
+theorem numInt_complete {input pre i f e rest : Bytes} (h : input = pre ++ (i ++ (f ++ (e ++ rest))))
+    (hi : IntPart i) (hf : FracOpt f) (he : E e rest) (hd : DelimOK rest) :
+    numIntG expF input (i ++ (f ++ (e ++ rest))) pre.length =
+      some (pre.length + i.length + f.length + e.length) := by
+  cases hi with
+  | zero =>
+    have hin : input = (pre ++ [0x30#8]) ++ (f ++ (e ++ rest)) := by rw [h]; simp
+    have hx := numFrac_complete X hin hf he hd
+    simp only [List.cons_append, List.nil_append, numIntG, if_true]
+    have hcount : pre.length + 1 = (pre ++ [0x30#8]).length := by simp
+    rw [hcount, hx]; simp
+  | nonzero c ds h19 hds =>
+    have hnd := afterInt_head X hf he hd
+    have h1 : digitsLen (ds ++ (f ++ (e ++ rest))) = ds.length := digitsLen_append hds hnd
+    have h2 : dropDigits (ds ++ (f ++ (e ++ rest))) = f ++ (e ++ rest) := dropDigits_append hds hnd
+    have hin : input = (pre ++ (c :: ds)) ++ (f ++ (e ++ rest)) := by rw [h]; simp
+    have hx := numFrac_complete X hin hf he hd
+    simp only [List.cons_append, numIntG, if_neg (digit19_ne_zero c h19), h19, if_true, h1, h2]
+    have hcount : pre.length + 1 + ds.length = (pre ++ (c :: ds)).length := by simp <;> omega
+    rw [hcount, hx]; simp <;> omega
+
+/-! ### parseNumber -/
+
+omit X in
+theorem intPart_head {i : Bytes} (hi : IntPart i) : ∃ c t, i = c :: t ∧ isDigit c = true := by
+  cases hi with
+  | zero => exact ⟨_, _, rfl, by decide⟩
+  | nonzero c ds h _ => exact ⟨c, ds, rfl, digit19_digit c h⟩
+
+/-- the exact language of `parseNumberG expF` when the exponent stage accepts exactly `E` -/
+theorem parseNumberG_exact (s : Bytes) (n : Nat) :
+    parseNumberG expF s = some n ↔
+      ∃ p rest, s = p ++ rest ∧ p.length = n ∧ DelimOK rest ∧ NumberG E p rest := by
+  constructor
+  · intro hk
+    rcases s with _ | ⟨c, t⟩
+    · simp [parseNumberG] at hk
+    · simp only [parseNumberG] at hk
+      split at hk
+      next hc =>
+        subst hc
+        rcases t with _ | ⟨d, t'⟩
+        · simp at hk
+        · simp only at hk
+          have hin : (0x2d#8 :: d :: t') = [0x2d#8] ++ (d :: t') := rfl
+          obtain ⟨i, f, e, rest, hs, hkk, hd, hi, hf, he⟩ := numInt_sound X (pre := [0x2d#8]) hin hk
+          refine ⟨[0x2d#8] ++ (i ++ (f ++ e)), rest, by simp [hs], ?_, hd,
+            NumberG.mk _ _ _ _ _ MinusOpt.minus hi hf he⟩
+          rw [hkk]; simp <;> omega
+      next hc =>
+        have hin : (c :: t) = [] ++ (c :: t) := rfl
+        obtain ⟨i, f, e, rest, hs, hkk, hd, hi, hf, he⟩ := numInt_sound X (pre := []) hin hk
+        refine ⟨[] ++ (i ++ (f ++ e)), rest, by simp [hs], ?_, hd,
+          NumberG.mk _ _ _ _ _ MinusOpt.none hi hf he⟩
+        rw [hkk]; simp <;> omega
+  · rintro ⟨p, rest, rfl, rfl, hd, hp⟩
+    cases hp with
+    | mk m i f e rest hm hi hf he =>
+      obtain ⟨c, t, rfl, hc⟩ := intPart_head hi
+      cases hm with
+      | none =>
+        have hx := numInt_complete X (input := [] ++ ((c :: t) ++ (f ++ (e ++ rest)))) (pre := []) rfl hi hf he hd
+        simp only [List.nil_append, List.cons_append, List.append_assoc, parseNumberG,
+          if_neg (digit_ne_minus c hc)]
+        simp only [List.nil_append, List.cons_append, List.length_nil] at hx
+        rw [hx]; simp <;> omega
+      | minus =>
+        have hx := numInt_complete X (input := [0x2d#8] ++ ((c :: t) ++ (f ++ (e ++ rest)))) (pre := [0x2d#8]) rfl hi hf he hd
+        simp only [List.nil_append, List.cons_append, List.append_assoc, parseNumberG, if_true]
+        simp only [List.nil_append, List.cons_append, List.length_cons, List.length_nil] at hx
+        rw [hx]; simp <;> omega
+
+end Generic
+
+/-- **The exact language of the current `parseNumber`.** -/
+theorem parseNumber_exact (s : Bytes) (n : Nat) :
+    parseNumber s = some n ↔
+      ∃ p rest, s = p ++ rest ∧ p.length = n ∧ DelimOK rest ∧ NumberLoose p rest :=
+  parseNumberG_exact expStage_current s n
+
+theorem numberG_fixed_iff {p rest : Bytes} : NumberG (fun e _ => ExpOpt e) p rest ↔ Number p := by
+  constructor
+  · rintro ⟨m, i, f, e, rest, hm, hi, hf, he⟩; exact Number.mk m i f e hm hi hf he
+  · rintro ⟨m, i, f, e, hm, hi, hf, he⟩; exact NumberG.mk m i f e rest hm hi hf he
+
+/-- **The exact language of `parseNumber` once the repair is applied: the RFC 8259 numbers.** -/
+theorem parseNumberFixed_exact (s : Bytes) (n : Nat) :
+    parseNumberFixed s = some n ↔ ∃ p rest, s = p ++ rest ∧ p.length = n ∧ DelimOK rest ∧ Number p := by
+  unfold parseNumberFixed
+  rw [parseNumberG_exact expStage_fixed s n]
+  simp only [numberG_fixed_iff]
 
 end JsonLex
